@@ -61,6 +61,9 @@ FRAMINGS = {
     "modernise": "a MODERNISATION of types or structure. The edit converts something to a more modern construct (a dataclass / NamedTuple / "
                  "__slots__ / Enum / f-string / pathlib / walrus / match statement / comprehension / functools helper / typing-driven "
                  "signature change) and silently changes equality, hashing, truthiness, ordering, laziness, default handling or text formatting.",
+    "twosite": "TWO COOPERATING SITES. The change consists of two small edits in two different functions or files, each of which is "
+               "harmless on its own (you can argue for either in isolation: one relaxes or moves a guarantee that the other silently "
+               "relied on); only together, and only for a particular input, order of calls or fault, does the property break.",
     "ordering": "an ORDERING change. The edit re-orders two steps, or the traversal / iteration / sort order of something, for a plausible reason; "
                 "each order is fine for most inputs.",
 }
